@@ -1785,6 +1785,9 @@ def _offset(
 
                 if flno > lno:
                     if not dln and (not (decos := getattr(a, 'decorator_list', None)) or decos[0].lineno > lno):
+                        if decos and ((f := decos[0].f) is not exclude or offset_excluded):  # the `@` and grouping parentheses of the first decorator may still be on the line of the offset point, '@(\n  deco)', those are not part of its location but they are part of its cached pars()
+                            f._cache.clear()  # f._touch()
+
                         continue  # no need to walk into something past offset point if line change is 0, don't need to touch either could not have been changed above
 
                     a.lineno = flno + dln
